@@ -1,4 +1,5 @@
 import PikaVerif.Lemmas.Stop
+import PikaVerif.Lemmas.StopRef
 /-!
 # C14 — stop_token: one winning stop request, each callback exactly once
 
@@ -131,6 +132,53 @@ theorem C14_pinned_registered_after_stop :
 /-- the repaired model rejects both logs at the retried CAS -/
 example : runLog step (init 4 2 (fun a => a % 2 + 1) true true 2) pinnedTwoWinners = none := by decide
 example : runLog step (init 4 2 (fun a => a % 2 + 1) true true 2) pinnedLateRegistration = none := by decide
+
+
+/-! ## Reference-count histories (model `PikaVerif.StopRef`) -/
+
+/-- **stop_possible.**  After every history of construction, copy, move, copy-assignment,
+    move-assignment, swap and destruction of stop_sources and stop_tokens (and stop requests)
+    on any number of stop states, the source count stored in each state word is the number of
+    live stop_source objects owning that state; hence a token that owns state `st` reports
+    `stop_possible()` exactly when stop was requested on `st` or a stop_source for `st` still
+    exists.  (Repaired code; the pinned tree fails, see below.) -/
+theorem C14_stop_possible_iff (H : Nat) (log : List StopRef.Op) (s : StopRef.St)
+    (h : runLog StopRef.step (StopRef.init true H) log = some s) (k st : Nat)
+    (hk : s.tok k = some (some st)) :
+    s.srcs st = StopRef.liveSources s st ∧
+    (StopRef.possible s (s.tok k) = true ↔ (s.req st = true ∨ 0 < StopRef.liveSources s st)) := by
+  have hi := StopRef.inv_of_accepted h
+  have hc := hi.cnt st
+  refine ⟨hc, ?_⟩
+  rw [hk]
+  simp [StopRef.possible, hc]
+
+/-- Pinned tree, copy-assignment: `b = a` leaves the source count of `b`'s previous state
+    untouched; after every source of that state is gone its token still reports
+    `stop_possible()`. -/
+theorem C14_pinned_copy_assign_leaks :
+    ∃ s, runLog StopRef.step (StopRef.init false 4)
+        [.snew 0, .snew 1, .tget 0 1, .sassign 1 0, .sdel 1, .sdel 0] = some s ∧
+      s.tok 0 = some (some 1) ∧ StopRef.liveSources s 1 = 0 ∧ s.req 1 = false ∧
+      StopRef.possible s (s.tok 0) = true := by
+  refine ⟨_, rfl, ?_⟩
+  decide
+
+/-- Pinned tree, (defaulted) move-assignment: the same leak. -/
+theorem C14_pinned_move_assign_leaks :
+    ∃ s, runLog StopRef.step (StopRef.init false 4)
+        [.snew 0, .snew 1, .tget 0 1, .smassign 1 0, .sdel 1, .sdel 0] = some s ∧
+      s.tok 0 = some (some 1) ∧ StopRef.liveSources s 1 = 0 ∧ s.req 1 = false ∧
+      StopRef.possible s (s.tok 0) = true := by
+  refine ⟨_, rfl, ?_⟩
+  decide
+
+/-- the repaired model on the same histories: stop is no longer possible -/
+example : ∃ s, runLog StopRef.step (StopRef.init true 4)
+    [.snew 0, .snew 1, .tget 0 1, .sassign 1 0, .sdel 1, .sdel 0] = some s ∧
+    StopRef.possible s (s.tok 0) = false := by
+  refine ⟨_, rfl, ?_⟩
+  decide
 
 /-! ## Non-vacuity -/
 
